@@ -223,11 +223,11 @@ def run(ctx):
     n_corpus = run_corpus(ctx, impl)
 
     # ---- generated stream: implementation + oracle
-    n_rand = 9000 if quick else 400000
+    n_rand = 6000 if quick else 400000
     gen = ac.gen_cases(ctx.rng, n_rand)
     cases, cls_count, len_count, tol_count, maxd = [], {}, {}, {}, 0
     fcases, unobserved = [], 0
-    n_front = 10 ** 9 if quick else 40000     # calls whose front-end values are observed and compared
+    n_front = 8000 if quick else 40000     # calls whose front-end values are observed and compared
     fe_max, fe_arg, fe_by_decade = 0.0, None, {}
     excess_max, excess_arg = -1.0, None
     for angle, tol, cls in gen:
